@@ -216,8 +216,8 @@ class C22:
     PROP = "C22"
     LEVEL = "exploration"
     TIERS = {
-        "quick": {"runs": 60000, "budget_s": 45, "chunk": 100, "determinism_runs": 48},
-        "thorough": {"runs": 2000000, "budget_s": 600, "chunk": 200, "determinism_runs": 256,
+        "quick": {"runs": 60000, "budget_s": 45, "chunk": 200, "determinism_runs": 48},
+        "thorough": {"runs": 2000000, "budget_s": 600, "chunk": 400, "determinism_runs": 256,
                      "minimise_s": 90},
     }
     RULE = ("Each run builds a seeded sandbox tree and issues <=40 requests through one loader variant "
